@@ -1,5 +1,6 @@
 #!/usr/bin/env python3
-"""Prints the markdown table of seeded defects (from seeded/*/meta.json)."""
+"""Prints the markdown table of seeded defects (from seeded/*/meta.json).
+Columns: change | confirmed | caught by (current checks) | first evaluation | what it does"""
 import json, glob, os
 rows = []
 for d in sorted(glob.glob('/verif/seeded/*')):
@@ -7,12 +8,21 @@ for d in sorted(glob.glob('/verif/seeded/*')):
     a = m.get('agent_meta', {})
     name = os.path.basename(d)
     summ = (a.get('summary') or '').replace('\n', ' ').replace('|', '/')
-    if len(summ) > 230:
-        summ = summ[:227] + '...'
+    if len(summ) > 200:
+        summ = summ[:197] + '...'
     det = ', '.join(m.get('detected_by') or []) or '-'
-    tried = ', '.join(sorted(m.get('check_results', {}).keys()))
-    rows.append((name, 'yes' if m.get('confirmed') else 'NO', tried, det, summ))
-print('| seeded change | confirmed | checks run | caught by | what it does |')
+    if m.get('neutralised') or m.get('demo_still_fails_on_current_tree') is False:
+        det = 'n/a (neutralised by a later repair)'
+    first = '-'
+    er = m.get('earlier_runs') or []
+    if er:
+        f = er[0]
+        first = 'tried %s: %s' % (', '.join(sorted((f.get('check_results') or {}).keys())), ', '.join(f.get('detected_by') or []) or 'missed')
+    conf = 'yes' if m.get('confirmed') else 'NO'
+    if m.get('ported'):
+        conf += ' (ported)'
+    rows.append((name, conf, det, first, summ))
+print('| seeded change | confirmed | caught by (quick tier, current checks) | first evaluation (if different) | what it does |')
 print('|---|---|---|---|---|')
 for r in rows:
     print('| %s | %s | %s | %s | %s |' % r)
